@@ -124,6 +124,7 @@ type Exec struct {
 	curCall         *ast.CallExpr            // the call a before/after point is attached to (for arg(i))
 	famElem         map[string]types.Type    // spawns mode: element type of each channel family, by element sort
 	callResults     map[*ast.CallExpr]Val    // value each executed call returned (for ret() in `after call:` points)
+	deferVars       map[token.Pos]map[types.Object]Val // entry mode: variable values at each defer statement
 	iterStart       map[int]*State           // state at the start of the current iteration of loop N (for pre(N, e))
 	lastLess        func(st *State, a, b string) string
 	curLoopWritable []string
@@ -233,6 +234,23 @@ func (x *Exec) merge(a, b *State) *State {
 	c := x.c
 	n := &State{vars: map[types.Object]Val{}, heaps: map[string]string{}, gh: map[string]Val{}}
 	n.pc = x.namePC(or(a.pc, b.pc))
+	// a package-level variable assigned on one path only keeps its entry value on the other
+	isGlobal := func(k types.Object) bool {
+		v, ok := k.(*types.Var)
+		return ok && v.Pkg() != nil && v.Parent() == v.Pkg().Scope()
+	}
+	for k := range a.vars {
+		if _, ok := b.vars[k]; !ok && isGlobal(k) {
+			b = b.clone()
+			b.vars[k] = x.objVal(k, b, token.NoPos)
+		}
+	}
+	for k := range b.vars {
+		if _, ok := a.vars[k]; !ok && isGlobal(k) {
+			a = a.clone()
+			a.vars[k] = x.objVal(k, a, token.NoPos)
+		}
+	}
 	for k, va := range a.vars {
 		vb, ok := b.vars[k]
 		if !ok {
@@ -283,6 +301,15 @@ func (x *Exec) merge(a, b *State) *State {
 	for _, k := range ks {
 		va, oka := a.gh[k]
 		vb, okb := b.gh[k]
+		if strings.HasPrefix(k, "defer:") && (!oka || !okb) {
+			// a defer statement executed on one of the two paths only
+			if !oka {
+				n.gh[k] = Val{T: x.c.define("deferred", "Bool", and(b.pc, vb.T)), Ty: tBool}
+			} else {
+				n.gh[k] = Val{T: x.c.define("deferred", "Bool", and(a.pc, va.T)), Ty: tBool}
+			}
+			continue
+		}
 		if !oka {
 			n.gh[k] = vb
 			continue
